@@ -687,6 +687,7 @@ def run(chk):
     _step_rule(chk, prog)
     _freshbudget_rule(chk, prog, cg)
     _protowalk_rule(chk, prog)
+    _tailflag_rule(chk, prog)
 
 
 def _freshbudget_rule(chk, prog, cg):
@@ -802,3 +803,71 @@ def _protowalk_rule(chk, prog):
                               "the loop around `%s` follows the prototype chain with no step counter in its condition: "
                               "(table/setproto a b) (table/setproto b a) makes the chain cyclic and the loop never ends" % steps[0].text()[:40])
     chk.floor(rule, 3, n)
+
+
+TAIL_INHERITORS = ("janetc_do", "janetc_upscope", "janetc_if")
+
+
+def _tailflag_rule(chk, prog):
+    """A call in tail position re-uses the caller's frame, which is what makes loops written as tail recursion run in
+    constant stack.  `do`, `upscope` and the branches of `if` pass tail position on to their last form: the option block
+    they compile it with has to inherit JANET_FOPTS_TAIL from their own options.  If it does not, every such call is
+    compiled as call + return and a tail-recursive loop through that form grows the stack with each iteration."""
+    rule = "C19-TAILFLAG"
+    chk.rule(rule, "do, upscope and if compile their value-position sub-form with options that inherit the tail-position flag")
+    TAIL = None
+    for k, v in prog.macros.items():
+        if k == "JANET_FOPTS_TAIL":
+            try:
+                TAIL = int(v["body"].strip(), 0)
+            except Exception:
+                pass
+    if TAIL is None:
+        raise AnalysisBroken("JANET_FOPTS_TAIL not found")
+    tu = prog.tus["specials.c"]
+    for name in TAIL_INHERITORS:
+        fn = tu.funcs.get(name)
+        if fn is None:
+            raise AnalysisBroken("%s not found" % name)
+        chk.analysed(fn)
+        chk.instance(rule)
+        optsname = fn.params[0]["n"]
+        inherit = {}      # local option block -> True (inherits TAIL) / False (loses it)
+        for x in fn.nodes:
+            if x.k != "asg":
+                continue
+            l = x.kids[0]
+            r = strip_casts(x.kids[1])
+            if x.op == "=" and is_ref(l) and is_ref(r, optsname):
+                inherit.setdefault(l.name, True)
+            if l.k == "mem" and l.field == "flags" and is_ref(strip_casts(l.kids[0])):
+                v = strip_casts(l.kids[0]).name
+                mentions_opts = any(y.k == "mem" and y.field == "flags" and is_ref(strip_casts(y.kids[0]), optsname) for y in r.walk())
+                if x.op == "=" and mentions_opts and r.k == "bin" and r.op == "&":
+                    m = strip_casts(r.kids[1])
+                    keep = m.v
+                    if keep is None and m.k == "un" and m.op == "~" and strip_casts(m.kids[0]).v is not None:
+                        keep = ~strip_casts(m.kids[0]).v
+                    if keep is not None:
+                        inherit[v] = bool(keep & TAIL) and inherit.get(v, True)
+                        if not (keep & TAIL):
+                            inherit[v] = False
+                elif x.op == "&=":
+                    m = r
+                    if m.k == "un" and m.op == "~" and strip_casts(m.kids[0]).v is not None and (strip_casts(m.kids[0]).v & TAIL):
+                        inherit[v] = False
+                    elif m.v is not None and not (m.v & TAIL):
+                        inherit[v] = False
+        used = set()
+        for c in fn.calls("janetc_value"):
+            a = strip_casts(c.args[0])
+            if is_ref(a):
+                used.add(a.name)
+        good = [v for v in used if inherit.get(v) is True]
+        if good:
+            chk.ok(rule, "%s: sub-form compiled with `%s`, which inherits the tail flag" % (name, good[0]))
+        else:
+            chk.violation(rule, "specials.c", name, "tail-inherit", fn.loc,
+                          "no option block that %s passes to janetc_value inherits JANET_FOPTS_TAIL from its own options (%s): a call in the "
+                          "last position of this form is no longer a tail call, and tail-recursive loops through it overflow the fiber's "
+                          "stack" % (name, ", ".join("%s: %s" % (k, "inherits" if v else "drops TAIL") for k, v in sorted(inherit.items())) or "none derived from opts"))
